@@ -334,5 +334,12 @@ PROPS["C05"]["explanation"] += " (WINDOW) the test whether a bit-file position l
 PROPS["C18"]["rules"] = PROPS["C18"]["rules"] + [rules_idioms.rule_option_siblings]
 PROPS["C18"]["explanation"] = PROPS["C18"]["explanation"].replace(" Not decided (value-level)", " (OPTSIB) the -t and -c option handlers apply the same tests to their object lists. Not decided (value-level)")
 
+PROPS["C19"]["rules"] = PROPS["C19"]["rules"] + [rules_idioms.rule_gr_component_count]
+PROPS["C19"]["explanation"] += " (GRCOMP) wherever a tool reads an image, the buffer size and every element count passed on with the buffer (array_diff, dumpfull) depends on the number of components."
+PROPS["C18"]["rules"] = PROPS["C18"]["rules"] + [rules_idioms.rule_gr_component_count]
+
+PROPS["C19"]["rules"] = PROPS["C19"]["rules"] + [rules_idioms.rule_reported_difference_counted]
+PROPS["C19"]["explanation"] += " (DIFFCOUNT) in hdiff's comparison routines every branch taken because a quantity of the two objects differs, and which prints a report, adds to the difference count (or declares the objects not comparable)."
+
 NOT_APPLICABLE = {}
 
